@@ -209,6 +209,12 @@ ASSUMPTIONS = [
     'is judged: no exception, no warning, every item exposed as written (the last item modulo trailing blanks) and the '
     'heading line of str() equal to the written one either with or without its trailing blanks; every other line byte for '
     'byte.  Models with heading blanks are not used in the second-use classes',
+    'near-twin class: the urgency comment and a key=value value are free text of the heading ("urgency=value[ comment]'
+    '[, key=value...]"), so a run of several blanks / a tab strictly INSIDE them (never at their ends, never next to "=" or '
+    '",") is text like any other character and has to come back byte for byte and in the attributes (the unchanged tree '
+    'keeps both verbatim - measured before the class was written); only models of this class (flag ws) carry such runs.  '
+    'A member of a twin case is judged by the ordinary oracle only; which earlier heading it resembles is named in the key, '
+    'nothing more is demanded',
 ]
 ANCHORS = ['debian.changelog:Changelog.parse_changelog',
            'debian.changelog:Changelog._format',
@@ -227,6 +233,7 @@ HANDOUT = {'quick': 3000, 'thorough': 100000}    # caller-side mutation of hande
 BIG = {'quick': 400, 'thorough': 30000}          # size class: random big cases (the fixed matrix comes on top)
 KVS = {'quick': 1600, 'thorough': 50000}         # heading key=value pairs beyond urgency: random models
 BLS = {'quick': 700, 'thorough': 24000}          # blank-line layout x bytes lines without line end: random models
+TWINS = {'quick': 520, 'thorough': 16000}       # near-twin headings (same changelog / consecutive parses)
 TBS = {'quick': 700, 'thorough': 24000}          # trailing blanks after the date / the heading: random models
 
 FLOORS = {
@@ -437,6 +444,10 @@ FLOORS['quick']['counters'].update(_Q4)
 FLOORS['thorough']['counters'].update(_T4)
 FLOORS['quick']['monitors'].update({'M.bl': 4600, 'M.tb': 5100})
 FLOORS['thorough']['monitors'].update({'M.bl': 144000, 'M.tb': 144000})
+_Q5 = {}
+_T5 = {}
+FLOORS['quick']['counters'].update(_Q5)
+FLOORS['thorough']['counters'].update(_T5)
 
 # ---------------------------------------------------------------------------
 # grammar (render + independent validity check of a model)
@@ -494,14 +505,15 @@ def grammar_problem(case):
             if not (isinstance(b['u'], str) and b['u'].lower() in URGENCIES):
                 return 'urgency'
             c = b.get('c', '')
-            if c and not (_plain(c) and c == c.strip() and ',' not in c and '  ' not in c and '\t' not in c):
+            ws = bool(case.get('ws'))      # near-twin class: runs of blanks / tabs strictly INSIDE a comment or value
+            if c and not (_plain(c) and c == c.strip() and ',' not in c and (ws or ('  ' not in c and '\t' not in c))):
                 return 'urgency comment'
             seen = set(['urgency'])
             for k, v in b.get('kv', []):
                 if not (isinstance(k, str) and G_KEY.match(k)) or k.lower() in seen:
                     return 'key'
                 seen.add(k.lower())
-                if not (_plain(v) and v and v == v.strip() and ',' not in v and '  ' not in v and '\t' not in v):
+                if not (_plain(v) and v and v == v.strip() and ',' not in v and (ws or ('  ' not in v and '\t' not in v))):
                     return 'value'
             nchange = 0
             for l in b['body']:
@@ -1046,6 +1058,10 @@ def cases(ctx):
     for i, c in enumerate(big_matrix(ctx.tier == 'thorough')):
         if ctx.mine(i):
             yield c
+    rw = ctx.rng('twins')
+    nw = ctx.size(TWINS['quick'], TWINS['thorough'])
+    for _ in range(nw - nw // 3):
+        yield gen_twin(rw)
     r = ctx.rng('models')
     rr = ctx.rng('reuse')
     rh = ctx.rng('handout')
@@ -1083,6 +1099,8 @@ def cases(ctx):
         while done_h < nh and (done_h - nh // 8) * n < (j + 1) * (nh - nh // 8):
             yield gen_handout(rh, wide or rh.random() < 0.3)
             done_h += 1
+    for _ in range(nw // 3):
+        yield gen_twin(rw)          # the last third after the process has seen every other heading
 
 
 # ---------------------------------------------------------------------------
@@ -2061,6 +2079,8 @@ def case_problem(case):
         return handout_problem(case)
     if kind == 'big':
         return big_problem(case)
+    if kind == 'twin':
+        return twin_problem(case)
     if kind == 'seq':
         if not (isinstance(case.get('cases'), list) and 1 <= len(case['cases']) <= 6):
             return 'seq'
@@ -2084,6 +2104,8 @@ def evaluate_any(case, stats=None):
         return run_handout(case, stats)
     if kind == 'big':
         return run_big(case, stats)
+    if kind == 'twin':
+        return run_twin(case, stats)
     return run_seq(case, stats)
 
 
@@ -3048,6 +3070,194 @@ def fails_standalone(case):
 
 
 # ---------------------------------------------------------------------------
+# NEAR-TWIN HEADINGS: headings whose text after the ';' differs from an earlier heading of the same process by one
+# whitespace run, one letter case or one character.
+#
+# case = {'kind': 'twin', 'how': 'blocks' | 'parses', 'dims': [dim, ...], 'cases': ['cl' model (flag ws), ...]}
+#   how = blocks: ONE changelog whose blocks carry the twin headings (in file order; other blocks may sit between them)
+#   how = parses: one changelog per twin heading, parsed one after the other in this process
+# Every member is an ordinary model judged by the ordinary oracle (evaluate) - what a heading gives must not depend on a
+# look-alike heading seen before.  Keys: near-twin-heading/<same-changelog|earlier-parse>/<ordinary key>.
+
+TWIN_DIMS = ('ws-comment', 'ws-value', 'case-comment', 'case-value', 'case-key', 'case-urgency', 'char-comment',
+             'char-value', 'ws-kind-comment', 'ws-kind-value')
+WS_RUNS = (' ', '  ', '\t', ' \t', '\t ', '   ', '\t\t', '    ')
+TWIN_WORDS = ('security', 'fix', 'HIGH', 'for', 'foo', 'see', '#123:', 'a;b', 'x=y', '(z)', 'yes', 'please', 'Team',
+              'upload', 'été', 'no', 'rc1', 'Low', 'regression', 'CVE-2024-1', 'only', 'b', 'Q')
+
+
+def twin_problem(case):
+    try:
+        if case.get('how') not in ('blocks', 'parses') or not isinstance(case.get('dims'), list):
+            return 'twin'
+        if not all(d in TWIN_DIMS for d in case['dims']):
+            return 'twin dims'
+        cs = case['cases']
+        if not (isinstance(cs, list) and 1 <= len(cs) <= 4):
+            return 'twin members'
+        for c in cs:
+            if not isinstance(c, dict) or c.get('kind') != 'cl' or c.get('form') is not None:
+                return 'twin member'
+            why = grammar_problem(c)
+            if why:
+                return why
+            if any(b.get('hb') for b in c['blocks']):
+                return 'twin member with heading blanks'
+    except (KeyError, TypeError, ValueError, IndexError) as e:
+        return 'malformed twin (%s)' % type(e).__name__
+    return None
+
+
+def _twin_phrase(r, tag):
+    """free text with >= 2 words; carries a token drawn per case so that two twin cases rarely share a phrase"""
+    n = r.randint(2, 4)
+    words = [r.choice(TWIN_WORDS) for _ in range(n)]
+    words.insert(r.randrange(n + 1), '%s%d' % (tag, r.randrange(100000)))
+    return words
+
+
+def _twin_variants(r, dim, words, n):
+    """n spellings of one phrase that differ in ONE place: one whitespace run, the case of one letter, one character"""
+    gap = r.randrange(len(words) - 1)
+    def join(run):
+        return ' '.join(words[:gap + 1]) + run + ' '.join(words[gap + 1:])
+    if dim.startswith('ws-kind'):
+        runs = r.sample([x for x in WS_RUNS if len(x) == 1] + [' \t', '\t '], n) if n <= 4 else None
+        return [join(x) for x in runs]
+    if dim.startswith('ws'):
+        runs = [' '] + r.sample(WS_RUNS[1:], n - 1)
+        if r.random() < 0.5:
+            r.shuffle(runs)
+        return [join(x) for x in runs]
+    base = join(' ')
+    letters = [i for i, ch in enumerate(base) if ch.isascii() and ch.isalpha()]
+    out = [base]
+    if dim.startswith('case'):
+        for i in r.sample(letters, min(n - 1, len(letters))):
+            out.append(base[:i] + base[i].swapcase() + base[i + 1:])
+    else:
+        for i in r.sample(letters, min(n - 1, len(letters))):
+            ch = r.choice([x for x in 'abzQ07-' if x != base[i]])
+            out.append(base[:i] + ch + base[i + 1:])
+    if r.random() < 0.5:
+        r.shuffle(out)
+    return out
+
+
+def gen_twin(r):
+    dim = r.choice(TWIN_DIMS + ('ws-comment', 'ws-value', 'ws-comment', 'ws-kind-comment'))
+    n = r.choice([2, 2, 2, 3, 3, 4])
+    if dim.startswith('ws-kind'):
+        n = min(n, 3)
+    how = r.choice(['blocks', 'parses'])
+    urg = gen_case_mix(r, r.choice(URGENCIES))
+    comment = ''
+    if r.random() < 0.7 or dim.endswith('comment'):
+        comment = ' '.join(_twin_phrase(r, 'c'))
+        if r.random() < 0.5:
+            comment = '(' + comment + ')'
+    kv = []
+    seen = set(['urgency'])
+    for _ in range(r.choice([0, 1, 1, 2]) or (1 if dim.endswith(('value', 'key')) else 0)):
+        k = gen_kv_key(r) if r.random() < 0.5 else r.choice(KEY_POOL)
+        if k.lower() in seen or not G_KEY.match(k):
+            k = 'x-twin-%d' % len(kv)
+        seen.add(k.lower())
+        kv.append([k, ' '.join(_twin_phrase(r, 'v')) if r.random() < 0.6 else r.choice(VALUE_POOL)])
+    at = r.randrange(len(kv)) if kv else 0
+    heads = []
+    if dim.endswith('comment'):
+        words = comment.strip('()').split(' ')
+        for v in _twin_variants(r, dim, words, n):
+            heads.append((urg, '(' + v + ')' if comment.startswith('(') else v, [list(p) for p in kv]))
+    elif dim.endswith('value'):
+        words = _twin_phrase(r, 'v')
+        for v in _twin_variants(r, dim, words, n):
+            pairs = [list(p) for p in kv]
+            pairs[at][1] = v
+            heads.append((urg, comment, pairs))
+    elif dim == 'case-key':
+        k = kv[at][0]
+        letters = [i for i, ch in enumerate(k) if ch.isalpha()]
+        if not letters:
+            k, letters = 'x-twin', [0, 2, 3, 4, 5]
+        ks = [k] + [k[:i] + k[i].swapcase() + k[i + 1:] for i in r.sample(letters, min(n - 1, len(letters)))]
+        for k2 in ks:
+            pairs = [list(p) for p in kv]
+            pairs[at][0] = k2
+            heads.append((urg, comment, pairs))
+    else:   # case-urgency
+        letters = list(range(len(urg)))
+        us = [urg] + [urg[:i] + urg[i].swapcase() + urg[i + 1:] for i in r.sample(letters, min(n - 1, len(letters)))]
+        for u in us:
+            heads.append((u, comment, [list(p) for p in kv]))
+    blocks = []
+    for (u, c, pairs) in heads:
+        b = gen_block(r, False)
+        b['u'], b['c'], b['kv'] = u, c, pairs
+        blocks.append(b)
+    if how == 'blocks':
+        if r.random() < 0.3:
+            blocks.insert(r.randrange(1, len(blocks)), gen_block(r, False))     # a stranger between the twins
+        for b in blocks[:-1]:
+            b['gap'] = r.choice([1, 1, 2])
+        members = [{'kind': 'cl', 'lead': r.choice([0, 0, 1]), 'ws': 1, 'blocks': blocks}]
+    else:
+        members = []
+        for b in blocks:
+            bl = [b]
+            if r.random() < 0.25:
+                bl.insert(r.randrange(2), gen_block(r, False))
+                bl[0]['gap'] = 1
+            members.append({'kind': 'cl', 'lead': 0, 'ws': 1, 'blocks': bl})
+    return {'kind': 'twin', 'how': how, 'dims': [dim], 'cases': members}
+
+
+def run_twin(case, stats=None):
+    found = []
+    where = 'same-changelog' if case['how'] == 'blocks' else 'earlier-parse'
+    for c in case['cases']:
+        for k, m in evaluate(c, stats, mon='M.twin', deep_forms=0):
+            found.append(('near-twin-heading/%s/%s' % (where, k),
+                          '%s  [the heading differs from an earlier heading of this %s only in: %s]' % (
+                              m, 'changelog' if where == 'same-changelog' else 'process', ', '.join(case['dims']))))
+    return _dedupe(found)
+
+
+def note_twin(ctx, case):
+    ctx.count('twin:case')
+    ctx.count('twin:how:' + case['how'])
+    for d in case['dims']:
+        ctx.count('twin:dim:' + d)
+        ctx.count('twin:dim:%s:%s' % (d.split('-')[0], case['how']))
+    heads = [b for c in case['cases'] for b in c['blocks']]
+    ctx.count('twin:headings', len(heads))
+    if any('\t' in b.get('c', '') or any('\t' in v for _k, v in b.get('kv', [])) for b in heads):
+        ctx.count('twin:tab-inside-heading-text')
+    if any('  ' in b.get('c', '') or any('  ' in v for _k, v in b.get('kv', [])) for b in heads):
+        ctx.count('twin:blank-run-inside-heading-text')
+
+
+def shrink_twin(case, key):
+    """Smaller twin case that still shows the key IN A FRESH INTERPRETER (what --replay does); else the case itself."""
+    if CONFIRM_BUDGET[0] <= 0:
+        return case
+    CONFIRM_BUDGET[0] -= 1
+    small = {'kind': 'twin', 'how': case['how'], 'dims': case['dims'], 'cases': []}
+    for c in case['cases']:
+        blocks = []
+        for b in c['blocks']:
+            nb = dict(BASE, v=b['v'], u=b['u'], c=b.get('c', ''), kv=b.get('kv', []), gap=b.get('gap', 0))
+            blocks.append(nb)
+        small['cases'].append({'kind': 'cl', 'lead': 0, 'ws': 1, 'blocks': blocks})
+    if case_problem(small) is None:
+        got = fails_standalone(small)
+        if got != 'unknown' and key in [k for k, _m in got]:
+            return small
+    return case
+
+
+# ---------------------------------------------------------------------------
 # shrinking a witness (keeps the mechanism key)
 
 def _variants(case):
@@ -3144,7 +3354,7 @@ def report(ctx, case, key, msg):
     process mutated handed-out values is first re-executed in a fresh interpreter."""
     plain = {k: v for k, v in case.items() if k != 'matrix'}
     kind = case['kind']
-    if is_ordinary_key(key) and TAINTED[0] is not None and kind != 'seq' and not ctx.replay:
+    if is_ordinary_key(key) and TAINTED[0] is not None and kind not in ('seq', 'twin') and not ctx.replay:
         culprit = TAINTED[0]
         for v in _versions_of(case):
             if v in TAINT:
@@ -3196,7 +3406,9 @@ def report(ctx, case, key, msg):
         ctx.violation(key, '%s | smallest sizes still showing it (recipes shrunk by bisection): %s%s' % (
             msg, sizes or '-', ', %d further blocks' % small['more'] if small.get('more') else ''), small)
         return
-    if kind == 'seq' or SHRINK_BUDGET[0] <= 0:
+    if kind == 'twin':
+        small = shrink_twin(plain, key) if ctx.viol_count[key] < 2 else plain
+    elif kind == 'seq' or SHRINK_BUDGET[0] <= 0:
         small = plain
     else:
         SHRINK_BUDGET[0] -= 1
@@ -3241,6 +3453,9 @@ def run_case(ctx, case):
             ctx.nontrivial(case)
     elif kind == 'big':
         ctx.count('wl:' + str(case.get('wl', 'big')))
+        ctx.nontrivial(case)
+    elif kind == 'twin':
+        note_twin(ctx, case)
         ctx.nontrivial(case)
     else:
         if case.get('matrix'):
